@@ -5,11 +5,11 @@ Open Scope nat_scope.
 
 Definition inplace_free (md : field -> bool) : Prop := forall f, md f = false.
 
-Lemma copy_md_free : inplace_free copy_md.
+Lemma tree_md_free : inplace_free tree_md.
 Proof. intro f. reflexivity. Qed.
 
-(* the patch: copy before append in Returning.MergeClause, nothing else changed *)
-Lemma copy_md_is_patched_tree : forall f, copy_md f = if field_eqb f FRet then false else tree_md f.
+(* fix 6cb0e65 (copy before append in Returning.MergeClause) is the only difference to the old tree *)
+Lemma tree_md_is_patched_old : forall f, tree_md f = if field_eqb f FRet then false else old_md f.
 Proof. intro f. destruct f; reflexivity. Qed.
 
 Definition no_returning_op (o : op) : bool := match o with OReturning _ => false | _ => true end.
@@ -66,12 +66,12 @@ Proof.
 Qed.
 End Irrel.
 
-(* with Returning appending in place (the tree), histories without a Returning clause are isolated *)
+(* even with Returning appending in place (the old tree), histories without a Returning clause are isolated *)
 Lemma isolation_without_returning grow hist :
-  forallb no_returning_step hist = true -> isolated (run_hist grow tree_md hist).
+  forallb no_returning_step hist = true -> isolated (run_hist grow old_md hist).
 Proof.
-  intro H. rewrite (run_hist_irrel grow tree_md copy_md) with (hist := hist); auto.
-  - apply isolation_all. exact copy_md_free.
+  intro H. rewrite (run_hist_irrel grow old_md tree_md) with (hist := hist); auto.
+  - apply isolation_all. exact tree_md_free.
   - intros f N. destruct f; auto. contradiction.
 Qed.
 
